@@ -1,11 +1,21 @@
 package props
 
 import (
+	"context"
 	"encoding/json"
+	"errors"
 	"fmt"
 	"math/rand/v2"
+	"runtime"
 	"strconv"
+	"sync"
+	"sync/atomic"
 	"testing"
+	"time"
+
+	sse "github.com/tmaxmax/go-sse"
+
+	"verifharness/mon"
 
 	"verifharness/fw"
 )
@@ -380,6 +390,145 @@ func TestC06(t *testing.T) {
 	jLoop(t, r, "S", r.N(4000, 60000), g, 4, 6, jTargeted, func(sc *jScenario, tr *jTrace) []jv {
 		return oracleSubscriberSafety(sc, tr)
 	})
+	// real goroutines, real parallelism
+	runtime.GOMAXPROCS(16)
+	nr := r.N(20000, 400000)
+	for i := 0; i < nr; i++ {
+		if !r.Mine("R", i) {
+			continue
+		}
+		key := fw.Key("R", i)
+		if i%64 == 0 {
+			r.Begin(key, "real-goroutine stress")
+		}
+		c06RealStress(r, key, r.Rand("R", i))
+		r.Eval(fw.Hash("R", strconv.Itoa(i)), true)
+	}
+}
+
+// c06RealStress runs Joe with real goroutines and real parallelism (no bubble, no virtual time):
+// windows that contain no yield point (e.g. two Shutdown calls racing between a check and a close)
+// are only reachable this way. Oracles: the process survives, no MessageWriter call is stamped
+// after its Subscribe returned, failing subscribers get their own error, everything returns.
+func c06RealStress(r *fw.Run, key string, rng *rand.Rand) {
+	var hc atomic.Uint64
+	sse.SetVerifHook(func(string) {
+		if hc.Add(1)%3 == 0 {
+			runtime.Gosched()
+		}
+	})
+	defer sse.SetVerifHook(nil)
+	clock := &mon.Clock{}
+	joe := &sse.Joe{}
+	if rng.IntN(2) == 0 {
+		rp, _ := sse.NewFiniteReplayer(4, true)
+		joe.Replayer = rp
+	}
+	type subState struct {
+		cl       *mon.RecClient
+		ret      error
+		retStamp int64
+		failErr  error
+	}
+	nsub := 1 + rng.IntN(4)
+	subs := make([]*subState, nsub)
+	var wg sync.WaitGroup
+	start := make(chan struct{})
+	for i := range subs {
+		st := &subState{cl: &mon.RecClient{Name: "s" + strconv.Itoa(i), Clock: clock}}
+		subs[i] = st
+		ctx, cancel := context.WithCancel(context.Background())
+		mode := rng.IntN(4)
+		if mode >= 1 {
+			st.cl.FailSendAt = 1 + rng.IntN(3)
+			if mode == 3 {
+				st.cl.FailSendAt = 0
+				st.cl.FailFlushAt = 1 + rng.IntN(3)
+			}
+			st.failErr = &mon.InjectedError{Where: "client:" + st.cl.Name, N: i}
+			st.cl.Err = st.failErr
+			if mode != 1 {
+				st.cl.OnCall = func(op string, n int, failing bool) {
+					if failing {
+						cancel() // what net/http does on a write error
+					}
+				}
+			}
+		}
+		cancelLate := rng.IntN(3) == 0
+		wg.Add(1)
+		go func() {
+			defer wg.Done()
+			defer cancel()
+			<-start
+			st.ret = joe.Subscribe(ctx, sse.Subscription{Client: st.cl, Topics: []string{"t"}})
+			st.retStamp = clock.Tick()
+		}()
+		if cancelLate {
+			wg.Add(1)
+			go func() {
+				defer wg.Done()
+				<-start
+				for k := 0; k < 20; k++ {
+					runtime.Gosched()
+				}
+				cancel()
+			}()
+		}
+	}
+	npub := 1 + rng.IntN(3)
+	for p := 0; p < npub; p++ {
+		wg.Add(1)
+		go func() {
+			defer wg.Done()
+			<-start
+			for k := 0; k < 6; k++ {
+				m := &sse.Message{}
+				m.AppendData("x")
+				joe.Publish(m, []string{"t"})
+			}
+		}()
+	}
+	nsd := 1 + rng.IntN(3)
+	for p := 0; p < nsd; p++ {
+		wg.Add(1)
+		go func() {
+			defer wg.Done()
+			<-start
+			for k := 0; k < 10+p*7; k++ {
+				runtime.Gosched()
+			}
+			joe.Shutdown(context.Background())
+		}()
+	}
+	close(start)
+	done := make(chan struct{})
+	go func() { wg.Wait(); close(done) }()
+	select {
+	case <-done:
+	case <-time.After(20 * time.Second):
+		r.Count("inconclusive_watchdog", 1)
+		return
+	}
+	r.Count("real_goroutine_runs", 1)
+	for _, st := range subs {
+		calls := st.cl.Calls()
+		r.Count("client_calls_observed", int64(len(calls)))
+		for _, c := range calls {
+			if c.Start > st.retStamp {
+				r.Violation(key, []string{"call_after_subscribe_returned", "real_goroutines"}, map[string]any{"subscriber": st.cl.Name}, "C06: %s started after Subscribe had returned (real goroutines)", c.Op)
+				break
+			}
+		}
+		if st.cl.Overlaps > 0 {
+			r.Violation(key, []string{"concurrent_calls_on_client", "real_goroutines"}, nil, "C06: overlapping calls on one MessageWriter")
+		}
+		if fi := clientFailure(calls); fi >= 0 && st.ret != st.failErr {
+			r.Violation(key, []string{"subscribe_return_wrong", "own_error_lost", "real_goroutines"}, map[string]any{"subscriber": st.cl.Name, "returned": fmt.Sprint(st.ret)}, "C06: subscriber's own %s failed but Subscribe returned %v (real goroutines)", calls[fi].Op, st.ret)
+		} else if fi < 0 && st.ret != nil && !errors.Is(st.ret, sse.ErrProviderClosed) {
+			r.Violation(key, []string{"subscribe_return_wrong", "real_goroutines"}, nil, "C06: Subscribe returned %v without any failure", st.ret)
+		}
+	}
 }
 
 // ---- C07 -----------------------------------------------------------------------------------
